@@ -87,7 +87,26 @@ def run_seq(args):
             if lost and not any(ev["raised"] for ev in trace[1:]):
                 trace.append({"a": "feed", "o": "ok", "raised": 0, "exc": "", "cmds": ["spurious connection_lost"], "lost": 1})
             return trace
+        if any(o == "cb" for o in seq):
+            ezsp.add_callback(app.ezsp_callback_handler)        # as start_network does
+            app.packet_received = lambda pkt: None
         for o in ["ok"] * prefix + list(seq):
+            if o == "cb":
+                # the NCP sends frames on its own between two feeds
+                t_ = ncp.t
+                raised = 0
+                try:
+                    st = t_.EmberStatus.NETWORK_OPENED
+                    ncp.callback("stackStatusHandler", [st], now=True)
+                    aps = t_.EmberApsFrame(profileId=260, clusterId=6, sourceEndpoint=1, destinationEndpoint=1, options=t_.EmberApsOption.APS_OPTION_NONE,
+                                           groupId=0, sequence=7)
+                    ncp.callback("incomingMessageHandler", [t_.EmberIncomingMessageType.INCOMING_UNICAST, aps, 200, -40, 0x1234, 255, 255, b"\x01\x02"], now=True)
+                    ncp.callback("messageSentHandler", [t_.EmberOutgoingMessageType.OUTGOING_DIRECT, 0x1234, aps, 9, t_.EmberStatus.SUCCESS, b""], now=True)
+                except BaseException:  # noqa
+                    raised = 1
+                await asyncio.sleep(0)
+                trace.append({"a": "callback", "raised": raised})
+                continue
             arm(o)
             n0 = len(ncp.log)
             ev = {"a": "feed", "o": o, "raised": 0, "exc": "", "lost": -1}
@@ -139,6 +158,12 @@ def run(ctx: Ctx):
             jobs.append(("later", prefix, ["timeout2", "timeout", "timeout2", "timeout", "timeout2", "okbad", "timeout"], False))
     for seq in itertools.product(("ok", "timeout", "timeout2"), repeat=5 if ctx.quick else 6):
         jobs.append(("later", 0, list(seq) + ["timeout", "timeout", "ezsperr", "timeout", "timeout"], False))
+    # frames the NCP sends on its own between failed feeds (no keep-alive outcome: the run of failures goes on)
+    for seq in itertools.product(("timeout", "ezsperr", "cb"), repeat=5 if ctx.quick else 7):
+        if "cb" not in seq or seq.count("cb") > 3:
+            continue
+        for ver in ("v4", "later"):
+            jobs.append((ver, 0, list(seq) + ["timeout", "cb", "timeout", "timeout", "timeout", "timeout"], False))
     # firmware whose counter reads carry fewer / more values than the host has counter types (the reply is an open-ended list)
     for nc in (1, 40, 43, 60):
         for seq in itertools.product(("ok", "timeout", "ezsperr"), repeat=4 if ctx.quick else 6):
